@@ -6,7 +6,14 @@ Proof about a global sequential model of the configurations without MPI I/O (coq
       interposed (`--wrap`): every rank's trace of MPI *and* stdio calls is co-simulated against the extracted
       per-rank program, and the global model's prediction (classes, counts, data, file, ledger) is compared;
   T2  configuration A (no MPI): same with the serial build (stdio trace only);
-  configuration B (MPI I/O, Open MPI under mpirun) is judged by the property oracle only.
+  T1  sc_io_parse_access_mode, sc_io_open, sc_io_close, sc_io_read, sc_io_write, sc_io_read_count and the MPI I/O branches of
+      the explicit-offset functions are translated in all three configurations (group OpenC12); coq/C12/OpenGen.v proves the
+      models' programs equal to them;
+  T3  configuration B (MPI with MPI I/O): the real code runs on the simulated MPI against a MOCK MPI I/O library (harness,
+      -DC12_SIMIO) whose specification is coq/C12/MpiioModel.v; every rank's sequence of MPI I/O calls (amode bits, set_size,
+      offsets, counts, data, returned codes and byte counts) is co-simulated against the extracted program, the global model's
+      prediction is compared, and MPI I/O error codes are injected (configuration name "Bsim" in keys);
+  configuration B under Open MPI (mpirun, real MPI I/O) is judged by the property oracle only.
 An oracle independent of the model judges every scenario: same class on all ranks, SUCCESS iff no stdio call failed,
 failed open leaves nothing behind, file = reference semantics, counts and data read back, memory balance, no FILE* left."""
 import os, sys, json, re
@@ -18,7 +25,13 @@ CLASS_NAMES = ["SUCCESS", "ARG", "COUNT", "UNKNOWN", "OTHER", "NO_MEM", "FILE", 
                "UNSUPPORTED_OPERATION", "NO_SUCH_FILE", "FILE_EXISTS", "BAD_FILE", "ACCESS", "NO_SPACE", "QUOTA", "READ_ONLY",
                "FILE_IN_USE", "DUP_DATAREP", "CONVERSION", "IO"]
 FOPEN, FWRITE, FREAD, FSEEK, FTELL, FFLUSH, FCLOSE = range(7)
-FN_NAMES = ["fopen", "fwrite", "fread", "fseek", "ftell", "fflush", "fclose"]
+FN_NAMES = ["fopen", "fwrite", "fread", "fseek", "ftell", "fflush", "fclose"] + ["fn%d" % k for k in range(7, 20)] + \
+           ["MPI_File_open", "MPI_File_set_size", "MPI_File_close", "MPI_File_read_at", "MPI_File_write_at", "MPI_File_read_at_all",
+            "MPI_File_write_at_all", "MPI_File_read", "MPI_File_write"]
+MOPEN, MSETSIZE, MCLOSE, MREADAT, MWRITEAT, MREADATALL, MWRITEATALL, MREAD, MWRITE = range(20, 29)
+# error classes of the simulated mpi.h that the mock MPI I/O injects
+M_ERR_ACCESS, M_ERR_IO, M_ERR_NO_SPACE, M_ERR_NO_SUCH_FILE, M_ERR_QUOTA, M_ERR_FILE = 20, 32, 36, 37, 39, 27
+BCFGS = ("B", "Bsim")
 MODES = {"rb": 0, "wb": 1, "ab": 2}
 ENOENT, EIO, EACCES, ENOSPC, EINVAL, EISDIR, EBADF = 2, 5, 13, 28, 22, 21, 9
 # scenario families whose offsets are not "append at the end": the token-passing fallback ignores offsets (F-C12e)
@@ -220,7 +233,7 @@ def gen_scenarios(ctx):
             S.append(Scen(P, [("o", am)], pathkind=2, family="open-isdir", cfgs="ABC", **rs()))
         for am in (0, 1, 2):
             S.append(Scen(P, [("o", am), ("c",)], init=b"abc", family="open-close", cfgs="ABC", **rs()))
-        S.append(Scen(P, [("o", 2), ("c",)], init=None, family="append-creates", cfgs="AC", **rs()))
+        S.append(Scen(P, [("o", 2), ("c",)], init=None, family="append-creates", cfgs="ACS", **rs()))
         S.append(Scen(P, [("o", 0), ("c",), ("o", 1), ("c",), ("o", 0), ("c",)], init=b"xyz", family="open-close", cfgs="ABC", **rs()))
     for e in list(range(1, 135)) + [200, 1000, 65536]:
         P = rng.choice([1, 2, 3])
@@ -285,7 +298,7 @@ def gen_scenarios(ctx):
         # append mode with an offset that is not the end of file (documented limitation of mode "ab")
         init = block(3, 1, 0, 3 * tsize)
         ops = [("o", 2), ("W", tsize, 1, tuple((0, counts[q]) for q in range(P))), ("c",)]
-        S.append(Scen(P, ops, init=init, family="append-not-at-end", cfgs="AC", **rs()))
+        S.append(Scen(P, ops, init=init, family="append-not-at-end", cfgs="ACS", **rs()))
     # the file ends inside an element (F-C12g in configuration B: MPI_UNDEFINED as ocount)
     for P in (1, 2):
         for tsize in (4, 8):
@@ -339,6 +352,90 @@ def gen_scenarios(ctx):
             ops = [("o", 1), ("W", tsize, 1, tuple(zip(offs, cnts_b))), ("c",), ("o", 0), ("R", tsize, tuple(zip(offs, cnts_b))),
                    ("R", tsize, tuple(reversed(list(zip(offs, cnts_b))))), ("c",)]
             S.append(Scen(P, ops, family=BIG_FAMILY, cfgs="A", **rs()))
+    # (h) sequences of sessions (create / append / read) on an existing or missing file, in all configurations (A, C, Open MPI,
+    #     mock MPI I/O): every write goes to the current end of the file (the common domain of the three configurations);
+    #     the first open may hit a missing file (read: refused everywhere), a missing directory or a directory
+    for rep in range(30 if quick else 300):
+        P = rng.choice(Ps[:4] if quick else Ps[:6])
+        tsize = rng.choice([1, 4, 8])
+        init = rng.choice([None, None, b"", bytes(rng.randrange(256) for _ in range(rng.randrange(1, 4) * tsize))])
+        pathkind = rng.choice([0, 0, 0, 0, 0, 1, 2])
+        size = None if (init is None or pathkind) else len(init)
+        ops, opid, modes = [], 0, []
+        for sess in range(rng.randrange(2, 5)):
+            m = rng.choice([0, 1, 2]) if pathkind != 2 else rng.choice([1, 2])      # (fopen "rb" of a directory succeeds on Linux)
+            if m == 2 and size is None and pathkind == 0:
+                m = 1                   # append to a missing file: the known exception, family sessions-append-missing below
+            modes.append(m)
+            ops.append(("o", m))
+            ok = pathkind == 0 and not (m == 0 and size is None)
+            if ok and m == 1:
+                size = 0
+            for _ in range(rng.randrange(0, 3)):
+                counts = rcounts(P)
+                if m == 0:
+                    top = size if ok else 8
+                    ops.append(("R", tsize, tuple((rng.randrange(0, top + 1), c) for c in counts)))
+                else:
+                    opid += 1
+                    offs, end = consecutive(size if ok else 0, counts, tsize)
+                    ops.append(("W", tsize, opid, tuple(zip(offs, counts))))
+                    if ok:
+                        size = end
+            if rng.random() < 0.3:
+                if m == 0:
+                    ops.append(("r", tsize, rng.randrange(0, (size if ok else 0) + 1), rng.choice([0, 1, 2])))
+                else:
+                    opid += 1
+                    c = rng.choice([0, 1, 2])
+                    ops.append(("w", tsize, opid, size if ok else 0, c))
+                    if ok:
+                        size += c * tsize
+            ops.append(("c",))
+        S.append(Scen(P, ops, init=init, pathkind=pathkind, family="sessions", cfgs="ABC", **rs()))
+    # the known exception of the cross-configuration statement: SC_IO_WRITE_APPEND on a missing file (A, C: created; MPI I/O: refused)
+    for P in (1, 2, 3):
+        tsize = rng.choice([1, 4])
+        counts = rcounts(P)
+        offs, end = consecutive(0, counts, tsize)
+        S.append(Scen(P, [("o", 2), ("W", tsize, 1, tuple(zip(offs, counts))), ("c",), ("o", 0), ("R", tsize, tuple(zip(offs, counts))), ("c",)],
+                      init=None, family="sessions-append-missing", cfgs="ACS", **rs()))
+    # (i) configuration B on the mock MPI I/O library: an injected error code at each MPI I/O call
+    for P in ([1, 2, 3] if quick else [1, 2, 3, 4, 6]):
+        tsize = rng.choice([1, 4])
+        counts = [rng.choice([1, 2, 3]) for _ in range(P)]
+        offs, end = consecutive(0, counts, tsize)
+        init = block(11, 5, 0, end)
+        wops = [("o", 1), ("W", tsize, 1, tuple(zip(offs, counts))), ("w", tsize, 2, end, 2), ("c",), ("o", 0), ("R", tsize, tuple(zip(offs, counts))), ("c",)]
+        rops = [("o", 0), ("R", tsize, tuple(zip(offs, counts))), ("r", tsize, 0, 2), ("c",), ("o", 2), ("W", tsize, 1, tuple((end + o, c) for o, c in zip(offs, counts))), ("c",)]
+        for am in (0, 1, 2):
+            for e in (M_ERR_ACCESS, M_ERR_NO_SPACE, M_ERR_IO):
+                S.append(Scen(P, [("o", am), ("c",), ("o", am), ("c",)], init=b"abcd", faults=[(0, MOPEN, rng.choice([0, 1]), e, 0)], family="bsim-open-fault", cfgs="S", **rs()))
+        # MPI_File_set_size fails after a successful MPI_File_open (F-C12h, repaired: the handle must be closed again, the class is
+        # the one of set_size) - also with a failing MPI_File_close inside that branch, and in the second create-open of a scenario
+        for e in (M_ERR_IO, M_ERR_NO_SPACE):
+            S.append(Scen(P, wops, init=rng.choice([None, init]), faults=[(0, MSETSIZE, 0, e, 0)], family="bsim-setsize-fault", cfgs="S", **rs()))
+        S.append(Scen(P, wops, init=init, faults=[(0, MSETSIZE, 0, M_ERR_NO_SPACE, 0), (0, MCLOSE, 0, M_ERR_IO, 0)], family="bsim-setsize-fault", cfgs="S", **rs()))
+        S.append(Scen(P, [("o", 1), ("c",)] + wops, faults=[(0, MSETSIZE, 1, M_ERR_QUOTA, 0)], family="bsim-setsize-fault", cfgs="S", **rs()))
+        S.append(Scen(P, wops, faults=[(0, MCLOSE, 0, M_ERR_IO, 0)], family="bsim-close-fault", cfgs="S", **rs()))
+        S.append(Scen(P, rops, init=init, faults=[(0, MCLOSE, 1, M_ERR_IO, 0)], family="bsim-close-fault", cfgs="S", **rs()))
+        # explicit-offset calls of rank 0
+        S.append(Scen(P, wops, faults=[(0, MWRITEAT, 0, M_ERR_NO_SPACE, 0)], family="bsim-at-fault", cfgs="S", **rs()))
+        S.append(Scen(P, rops, init=init, faults=[(0, MREADAT, 0, M_ERR_IO, 0)], family="bsim-at-fault", cfgs="S", **rs()))
+        # collective transfers: the same error code on every rank (an MPI library that agrees on the outcome) ...
+        S.append(Scen(P, wops, faults=[(q, MWRITEATALL, 0, M_ERR_NO_SPACE, 0) for q in range(P)], family="bsim-coll-fault", cfgs="S", **rs()))
+        S.append(Scen(P, rops, init=init, faults=[(q, MREADATALL, 0, M_ERR_IO, 0) for q in range(P)], family="bsim-coll-fault", cfgs="S", **rs()))
+        # ... and on one rank only (F-C12i: the wrapper hands every rank its own return code)
+        if P > 1:
+            q = rng.randrange(P)
+            S.append(Scen(P, wops, faults=[(q, MWRITEATALL, 0, M_ERR_NO_SPACE, 0)], family="bsim-coll-fault-one-rank", cfgs="S", **rs()))
+            S.append(Scen(P, rops, init=init, faults=[(q, MREADATALL, 0, M_ERR_IO, 0)], family="bsim-coll-fault-one-rank", cfgs="S", **rs()))
+        # wrong direction: writing through a read-only handle, reading through a write-only one (MPI_ERR_ACCESS from the library)
+        S.append(Scen(P, [("o", 0), ("W", tsize, 1, tuple(zip(offs, counts))), ("w", tsize, 2, 0, 1), ("c",)], init=init, family="bsim-wrong-direction", cfgs="S", **rs()))
+        S.append(Scen(P, [("o", 2), ("R", tsize, tuple(zip(offs, counts))), ("r", tsize, 0, 1), ("c",)], init=init, family="bsim-wrong-direction", cfgs="S", **rs()))
+    # every error code of the simulated mpi.h (and a few outside) through a failing MPI_File_open: class = MPI_Error_class (code)
+    for e in list(range(1, 58)) + [60, 1000, 0x3fffffff]:
+        S.append(Scen(rng.choice([1, 2]), [("o", rng.choice([0, 1, 2])), ("c",)], init=b"q", faults=[(0, MOPEN, 0, e, 0)], family="bsim-code-sweep", cfgs="S", **rs()))
     # (f) random sequences with random faults
     for rep in range(60 if quick else 1500):
         P = rng.choice(Ps)
@@ -424,8 +521,25 @@ def io_event(text):
     raise ValueError("unknown stdio note " + text)
 
 
+def mio_event(text):
+    """`mio <kind> <args> -> <error code> <bytes> [<hex data>]` -> (kind, co-simulation event text, error code)
+    open: <amode bits>; set_size: <size>; close: nothing; reads: <off> <tsize> <count>; writes: <off> <tsize> <count> <hex data>"""
+    left, right = text.split("->")
+    w, r = left.split(), right.split()
+    kind = int(w[1])
+    args = [int(x) for x in w[2:5]]
+    if kind in (MWRITEAT, MWRITEATALL, MWRITE) and len(w) > 5 and w[5] != "-":
+        args += list(bytes.fromhex(w[5]))
+    if kind in (MREAD, MWRITE):
+        args = args[1:]                     # no offset: [tsize, count] ++ data
+    reply = [int(r[0]), int(r[1])] + (list(bytes.fromhex(r[2])) if len(r) > 2 and r[2] != "-" else [])
+    return kind, "C %s 0 %s %s" % (hx(kind), pl(args), pl(reply)), int(r[0])
+
+
 def failed_call(fn, ret, err):
     """did this stdio call fail?  (errno is meaningful where the wrapper code clears it before the call)"""
+    if fn >= 20:
+        return err != 0
     if fn == FOPEN:
         return ret == 0
     if fn in (FWRITE, FREAD):
@@ -450,6 +564,7 @@ def rank_streams_sim(run, P):
     out = []
     for r in range(P):
         evs = []
+        hidden = False
         for e in sorted(by[r], key=lambda e: e.get("s", 0)):
             f = e.get("f", "")
             if f == "note":
@@ -459,6 +574,13 @@ def rank_streams_sim(run, P):
                 elif t.startswith("io "):
                     fn, txt, ret, err = io_event(t)
                     evs.append(("io", fn, txt, ret, err))
+                elif t.startswith("mio-hide"):
+                    hidden = t.split()[1] == "1"          # MPI calls made by the mock MPI I/O library itself
+                elif t.startswith("mio "):
+                    fn, txt, err = mio_event(t)
+                    evs.append(("io", fn, txt, err, err))
+            elif hidden:
+                pass
             elif f == "MPI_Bcast":
                 root = e["root"]
                 if "in" in e:
@@ -539,7 +661,7 @@ def oracle(ctx, sc, cfg, res, ftxt, stdio, mem, failures, rep):
                     opened, mode = True, o[1]
                     if o[1] == 1:
                         ref = b""
-                    elif o[1] == 2 and ref is None:
+                    elif o[1] == 2 and ref is None and cfg not in BCFGS:
                         ref = b""          # mode "ab" creates the file (documented deviation from MPI I/O)
                 else:
                     if not all(r.flag for r in rr):
@@ -547,11 +669,11 @@ def oracle(ctx, sc, cfg, res, ftxt, stdio, mem, failures, rep):
                     opened = False
                     # without faults the outcome of open is determined by the file system
                     if nofaults or (not sc.faults and sc.pathkind in (1, 2)):
-                        exp_ok = (sc.pathkind == 0 and not (o[1] == 0 and ref is None))
+                        exp_ok = (sc.pathkind == 0 and not (o[1] == 0 and ref is None) and not (cfg in BCFGS and o[1] == 2 and ref is None))
                         if exp_ok:
                             V.append(("open-refused:%s:mode%d" % (cfg, o[1]), "operation %d: open mode %d fails with %s on a usable file" % (i, o[1], cls)))
                 if cls == "SUCCESS" and not sc.faults:
-                    if sc.pathkind != 0 or (o[1] == 0 and ref is None):
+                    if sc.pathkind != 0 or (o[1] == 0 and ref is None) or (cfg in BCFGS and o[1] == 2 and ref is None):
                         V.append(("open-accepted:%s" % cfg, "operation %d: open mode %d succeeds although the file cannot be opened" % (i, o[1])))
             else:
                 if not all(r.flag for r in rr):
@@ -584,8 +706,8 @@ def oracle(ctx, sc, cfg, res, ftxt, stdio, mem, failures, rep):
             for q in range(P):
                 off, cnt = args[q]
                 r = rr[q]
-                if cfg == "B" and r.ocount == MPI_UNDEFINED and k == "R":
-                    V.append(("ocount-undefined:B", "operation %d rank %d: read of %d elements of size %d at offset %d where the file ends inside an element: ocount is MPI_UNDEFINED (%d)"
+                if cfg in BCFGS and r.ocount == MPI_UNDEFINED and k == "R":
+                    V.append(("ocount-undefined:%s" % cfg, "operation %d rank %d: read of %d elements of size %d at offset %d where the file ends inside an element: ocount is MPI_UNDEFINED (%d)"
                               % (i, q, cnt, tsize, off, r.ocount)))
                     undefined = True
                 elif r.ocount < 0 or r.ocount > cnt:
@@ -623,9 +745,9 @@ def oracle(ctx, sc, cfg, res, ftxt, stdio, mem, failures, rep):
             if failures is not None and (r.cls == "SUCCESS") != (not fl):
                 V.append(("success-iff:%s:%s" % (cfg, k),
                           "operation %d (%s): class %s, ocount %d of %d, failed stdio calls %s" % (i, k, r.cls, r.ocount, cnt, fl)))
-            undefined = cfg == "B" and r.ocount == MPI_UNDEFINED and k == "r"
+            undefined = cfg in BCFGS and r.ocount == MPI_UNDEFINED and k == "r"
             if undefined:
-                V.append(("ocount-undefined:B", "operation %d: read_at of %d elements of size %d at offset %d where the file ends inside an element: ocount is MPI_UNDEFINED (%d)"
+                V.append(("ocount-undefined:%s" % cfg, "operation %d: read_at of %d elements of size %d at offset %d where the file ends inside an element: ocount is MPI_UNDEFINED (%d)"
                           % (i, cnt, tsize, off, r.ocount)))
             elif r.ocount < 0 or r.ocount > cnt:
                 V.append(("ocount-range:%s:%s" % (cfg, k), "operation %d (%s): ocount %d for count %d" % (i, k, r.ocount, cnt)))
@@ -652,7 +774,7 @@ def oracle(ctx, sc, cfg, res, ftxt, stdio, mem, failures, rep):
         if ftxt != exp:
             fam = sc.family
             key = "file:%s" % cfg
-            if fam == "append-not-at-end":
+            if fam == "append-not-at-end" and cfg not in BCFGS:
                 key = "append-offset-ignored:%s" % cfg
             V.append((key, "file afterwards is %s, the operations at their offsets give %s" % (ftxt[:200], exp[:200])))
     if cfg == "C" and sc.family in OFFSET_FAMILIES:
@@ -660,8 +782,13 @@ def oracle(ctx, sc, cfg, res, ftxt, stdio, mem, failures, rep):
     # nothing left behind
     if mem not in (0, None):
         V.append(("memory:%s" % cfg, "sc_memory_status changed by %s over the scenario" % mem))
-    if stdio is not None and cfg != "B" and stdio[2] != 0:
+    if stdio is not None and cfg == "Bsim" and stdio[2] != 0:
+        V.append(("handle-left-open:%s" % cfg, "%d MPI file handles (all ranks together) still open after the scenario" % stdio[2]))
+    elif stdio is not None and cfg != "B" and stdio[2] != 0:
         V.append(("stream-left-open:%s" % cfg, "%d FILE* still open after the scenario (fopen calls %d, fclose calls %d)" % (stdio[2], stdio[0], stdio[1])))
+    if cfg == "Bsim" and sc.family == "bsim-coll-fault-one-rank":
+        # F-C12i: the MPI library reports an error of a collective transfer to one rank only: the wrapper hands it on unsynchronised
+        V = [(("rank-local-error:Bsim" if k in ("disagree:Bsim:W", "disagree:Bsim:R", "success-iff:Bsim:W", "success-iff:Bsim:R") else k), t) for k, t in V]
     return V
 
 
@@ -780,7 +907,7 @@ def oracle_big(sc, cfg, res, ftxt, stdio, mem, streams):
 # ----------------------------------------------------------------------------------------------------------------
 def run(ctx):
     import genall
-    st = genall.run(["ErrClassC12"])
+    st = genall.run(["ErrClassC12", "OpenC12"])
     for g, s in st.items():
         if s.startswith("FAILED"):
             ctx.tie_broken("translator group " + g, s)
@@ -790,6 +917,10 @@ def run(ctx):
     hsim = ctx.cc([H, os.path.join(vlib.TOOLS, "simmpi", "simmpi.c")], os.path.join(ctx.scratch, "c12_sim"), vsim, extra=["-DC12_SIM", WRAP])
     vser = ctx.variant(mpi="off", san=True)
     hser = ctx.cc([H], os.path.join(ctx.scratch, "c12_ser"), vser, extra=["-DC12_SERIAL", WRAP])
+    # configuration B on the simulated MPI: libsc with SC_ENABLE_MPIIO against the mock MPI I/O library of the harness
+    vsio = ctx.variant(mpi="sim", san=True, config_defs=("SC_ENABLE_MPIIO",),
+                       cflags_extra=("-include", os.path.join(vlib.TOOLS, "harness", "c12_mpiio.h")))
+    hsio = ctx.cc([H, os.path.join(vlib.TOOLS, "simmpi", "simmpi.c")], os.path.join(ctx.scratch, "c12_sio"), vsio, extra=["-DC12_SIMIO", WRAP])
     scens = gen_scenarios(ctx)
     if ctx.replay:
         rp = json.load(open(ctx.replay)).get("replay", {})
@@ -798,7 +929,7 @@ def run(ctx):
     ctx.log("%d scenarios" % len(scens))
     env = dict(os.environ, VERIF_SCRATCH=ctx.scratch, ASAN_OPTIONS="detect_leaks=0")
     model_lines, model_index = [], []
-    dist = {"P": {}, "family": {}, "adversary": {}, "faults": {}, "config": {"A": 0, "B": 0, "C": 0}}
+    dist = {"P": {}, "family": {}, "adversary": {}, "faults": {}, "config": {"A": 0, "B": 0, "C": 0, "Bsim": 0}}
     nviol = {}
 
     def report(sc, cfg, key, what, extra):
@@ -809,8 +940,12 @@ def run(ctx):
             ctx.violation(key, "configuration %s, P=%d, family %s: %s" % (cfg, sc.P, sc.family, what), rep)
 
     files = {}
-    for cfg, exe in (("C", hsim), ("A", hser)):
-        sel = [si for si, sc in enumerate(scens) if cfg in sc.cfgs]          # (only the big-offset family restricts A / C)
+    for cfg, exe in (("C", hsim), ("A", hser), ("Bsim", hsio)):
+        if cfg == "Bsim":
+            sel = [si for si, sc in enumerate(scens) if "S" in sc.cfgs or ("B" in sc.cfgs and not sc.faults)]
+        else:
+            sel = [si for si, sc in enumerate(scens) if cfg in sc.cfgs]          # (only the big-offset family restricts A / C)
+        mcfg = "B" if cfg == "Bsim" else cfg                                     # name of the configuration for the model driver
         text = "".join(scens[si].harness_line() + "\n" for si in sel)
         rc, lines, err = ctx.run_lines([exe], text, timeout=2400, env=env)
         runs = mpitrace.parse_runs(lines)
@@ -832,7 +967,7 @@ def run(ctx):
                 report(sc, cfg, "schedule:%s" % cfg, "run did not end normally (simmpi code %s): %s" % (r.rc, r.report[:300]), rep)
                 continue
             # per-rank event streams
-            if cfg == "C":
+            if cfg in ("C", "Bsim"):
                 streams = rank_streams_sim(r, P)
             else:
                 one = []
@@ -851,13 +986,15 @@ def run(ctx):
                     if e[0] == "op":
                         cur = e[1]
                     elif e[0] == "io" and failed_call(e[1], e[3], e[4]):
+                        if e[1] in (MOPEN, MSETSIZE, MCLOSE) and q != 0:
+                            continue            # a collective MPI I/O call with one outcome: counted once (rank 0)
                         failures.setdefault(cur, []).append((e[5] if cfg == "A" else q, FN_NAMES[e[1]]))
             aborted = (r.rc == 4)
             big = sc.family == BIG_FAMILY
             # ---- model: prediction of the global model (not for the big-offset family: the model's file is a list of bytes,
             #      12 GiB of zeros cannot be materialised; the theorems hold for every offset, the tie is co-simulation + oracle)
             if not big:
-                model_lines.append("G %s %s %s %s %s" % (cfg, hx(P), sc.model_node(), sc.model_plan(), sc.model_ops()))
+                model_lines.append("G %s %s %s %s %s" % (mcfg, hx(P), sc.model_node(), sc.model_plan(), sc.model_ops()))
                 model_index.append(("G", cfg, si, dict(res=res, ftxt=ftxt, stdio=stdio, mem=r.mem, aborted=aborted,
                                                        nfail=sum(len(v) for v in failures.values()))))
             # ---- model: co-simulation of every rank
@@ -867,8 +1004,10 @@ def run(ctx):
                     seq.append("X")
                 else:
                     out = []
-                    if cfg == "C":
+                    if cfg in ("C", "Bsim"):
                         for i, o in enumerate(sc.ops):
+                            if o[0] in "wr" and q != 0:
+                                continue        # an explicit-offset operation of rank 0: the other ranks do nothing (the harness prints idle or skip)
                             enc = enc_result(res[q][i], o[1] if o[0] in "WRwr" else 1)
                             if enc is not None:
                                 out += enc
@@ -879,7 +1018,7 @@ def run(ctx):
                                 if enc is not None:
                                     out += enc
                     seq.append("O " + pl(out))
-                model_lines.append("T %s %s %s %s | %s" % (cfg, hx(P), hx(q), sc.model_ops(), " ; ".join(seq)))
+                model_lines.append("T %s %s %s %s | %s" % (mcfg, hx(P), hx(q), sc.model_ops(), " ; ".join(seq)))
                 model_index.append(("T", cfg, si, q))
             # ---- oracle
             if aborted:
@@ -907,6 +1046,19 @@ def run(ctx):
             if sc.family in OFFSET_FAMILIES:
                 key = "offset-ignored:C"
             report(sc, "A/C", key, "file written without MPI: %s, with MPI but without MPI I/O: %s" % (a[:200], c[:200]), {})
+        # the MPI I/O configuration on the mock library against the two others (the known exceptions of the cross-configuration
+        # theorem have their own keys: the fallback ignores offsets, mode "ab" ignores offsets and creates a missing file)
+        b = files.get((si, "Bsim"))
+        for other, o in (("A", a), ("C", c)):
+            if b is not None and o is not None and b != o:
+                key = "configs-differ:Bsim%s" % other
+                if other == "C" and sc.family in OFFSET_FAMILIES:
+                    key = "offset-ignored:C"
+                elif sc.family == "append-not-at-end":
+                    key = "append-offset-ignored:Bsim%s" % other
+                elif sc.family in ("append-creates", "sessions-append-missing"):
+                    key = "append-missing-file:Bsim%s" % other
+                report(sc, "Bsim/" + other, key, "file with MPI I/O (mock library): %s, configuration %s: %s" % (b[:200], other, o[:200]), {})
     # ---- configuration B: MPI I/O under Open MPI, oracle only
     try:
         run_config_b(ctx, scens, files, report, dist, H)
@@ -952,7 +1104,9 @@ def run(ctx):
     ctx.cov["rule"] = ("scenarios = operation sequences (open / collective write / collective read / explicit-offset read+write of rank 0 / close) "
                        "on one file, run by the real code in configuration C (MPI without MPI I/O on the simulated MPI, P=%s, all 8 scheduler adversaries, "
                        "random seeds) and configuration A (no MPI; the P logical ranks one after the other), fault-free ones also in configuration B "
-                       "(MPI I/O, Open MPI); block lengths 0..5 elements of size 1/4/8, offsets consecutive / with gaps / reversed / beyond EOF / beyond 2^31 and 2^32 in a sparse file (family big-offset), "
+                       "(MPI I/O): under Open MPI (oracle only) and on the simulated MPI against the mock MPI I/O library (co-simulation of every MPI I/O call + global model + oracle; "
+                       "there also with injected MPI error codes at MPI_File_open / set_size / close / read_at / write_at / read_at_all / write_at_all, code sweep 1..57); "
+                       "sessions = sequences of create / append / read opens on an existing / missing file, missing directory, directory; block lengths 0..5 elements of size 1/4/8, offsets consecutive / with gaps / reversed / beyond EOF / beyond 2^31 and 2^32 in a sparse file (family big-offset), "
                        "modes read / create / append, missing file, missing directory, directory, a failing stdio call (fopen, fwrite, fread, fseek, "
                        "ftell, fflush, fclose; errno sweep 1..134) at each rank and step; distinct = distinct (P, data, path, faults, operations); "
                        "non-trivial = more than one operation" % ("1..6" if ctx.quick else "1..8,12"))
@@ -964,8 +1118,13 @@ def run(ctx):
                                "stdio interposition of the harness (--wrap) and glibc's stdio as the file system; the model's stdio (unbuffered, one file) is validated against it on every scenario",
                                "tools/c2g translation of sc_io_error_class (validated by the errno sweep through a failing fopen in both configurations)",
                                "the step from the per-rank programs to the global sequential model is validated by co-simulation plus comparison of every output, not proved",
-                               "configuration B: MPI I/O of Open MPI is a contract; only the oracle judges it"]
+                               "configuration B: MPI I/O is a contract, stated as the executable semantics coq/C12/MpiioModel.v (m_open, m_set_size, m_close, m_write_at, m_read_at: one byte array, one amode per open, "
+                               "collective calls synchronise and take effect in rank order, a failing write transfers nothing); the mock MPI I/O library of the harness implements it and is co-simulated against it; "
+                               "Open MPI (romio321) is judged by the oracle only and compared file by file with A, C and the mock",
+                               "tools/harness/c12_mpiio.h: MPI I/O declarations on top of the simulated mpi.h (constants of Open MPI 4.1)",
+                               "tools/c2g group OpenC12 (slice conventions of slicelib.py + class OpenT of groups_C12.py: calls as effects, `(*p)->f` as location, string literals as numbers)"]
     ctx.assumptions += ["MPI delivers messages in order per (source, communicator); Bcast gives every rank the root's value",
+                        "MPI_Error_class maps exactly MPI_SUCCESS to MPI_SUCCESS; MPI_File_open leaves MPI_FILE_NULL behind exactly when it fails; the serial sc_MPI_Bcast / sc_MPI_Comm_rank of libsc are no-op / rank 0",
                         "a failing stdio call sets errno > 0 (POSIX)"]
     return "proof"
 
